@@ -330,3 +330,6 @@ def run(ctx):
     ctx.guard(ik.rule_tiling, "R14.6")
     from .c12 import r12_2
     ctx.guard(r12_2)
+    # "no trial step is shorter than dt_min except one clipped to end at ts[-1]" / "retried smaller": the trial interval
+    # is [curr_t, curr_t + step_size] clipped to ts[-1] -- never stretched beyond the controller's step (exact models)
+    ctx.guard(ik.rule_last_steps, "R14.6", True)
